@@ -258,7 +258,7 @@ impl C18 {
 
     fn password_case(&self, cfg: &Cfg, i: u64, acc: &mut Acc) {
         let mut r = Rng::keyed(&[cfg.seed, 0x18b, i]);
-        let pw = *r.pick(&["secret", "two words", "tab\tinside", "pässwörd €", "x", "with  double  blanks "]);
+        let pw = *r.pick(&["secret", "two words", "tab\tinside", "pässwörd €", "x", "with  double  blanks ", "", " ", "say \"hi\" there", "back\\slash here", "0"]);
         let verdicts = [
             PasswordVerdict::Accept,
             PasswordVerdict::Reject(3),
@@ -369,7 +369,7 @@ impl Property for C18 {
     fn meta(&self, _cfg: &Cfg, _acc: &Acc) -> Meta {
         Meta {
             level: "exploration",
-            rule: "greetings: valid versions of any shape (digits, letters, blanks, CR, NUL, non-ASCII, nested 'OK MPD', 4-9 KiB), wrong prefixes differing at each position, empty version, invalid UTF-8, streams ending before the line end, random bytes; each under whole, byte-at-a-time, EVERY 2-way split (greetings <=64 bytes; sampled + buffer-edge points otherwise) and random k-way splits on the blocking and async connection, compared with the greeting reference (valid => version verbatim and the connection usable; complete malformed line => InvalidMessage; no line end => UnexpectedEof); the same through Client::connect / connect_with_password / connect_with_password_opt in the session engine (nothing may be written to a peer whose greeting was not accepted); password sessions: verdicts OK, ACK 3/4/5/50, ACK after printed output, ACK after a list_OK frame, close, garbage, reply cut inside, with delayed/chopped replies, wire latency, 4-byte writes, passwords with blanks/tabs/non-ASCII, a caller and a notification waiting: first line must be `password <arg>` tokenising to the password, idle only after the OK was completely delivered (C05 oracle), nothing further written after a rejection, result kinds IncorrectPassword / protocol errors; non-trivial = greeting split inside the line or password session; distinct by (greeting, segmentation, flavour) / (verdict, password, timing)".into(),
+            rule: "greetings: valid versions of any shape (digits, letters, blanks, CR, NUL, non-ASCII, nested 'OK MPD', 4-9 KiB), wrong prefixes differing at each position, empty version, invalid UTF-8, streams ending before the line end, random bytes; each under whole, byte-at-a-time, EVERY 2-way split (greetings <=64 bytes; sampled + buffer-edge points otherwise) and random k-way splits on the blocking and async connection, compared with the greeting reference (valid => version verbatim and the connection usable; complete malformed line => InvalidMessage; no line end => UnexpectedEof); the same through Client::connect / connect_with_password / connect_with_password_opt in the session engine (nothing may be written to a peer whose greeting was not accepted); password sessions: verdicts OK, ACK 3/4/5/50, ACK after printed output, ACK after a list_OK frame, close, garbage, reply cut inside, with delayed/chopped replies, wire latency, 4-byte writes, passwords with blanks/tabs/non-ASCII/quotes, the empty password and a single blank (through both constructors), a caller and a notification waiting: first line must be `password <arg>` tokenising to the password, idle only after the OK was completely delivered (C05 oracle), nothing further written after a rejection, result kinds IncorrectPassword / protocol errors; non-trivial = greeting split inside the line or password session; distinct by (greeting, segmentation, flavour) / (verdict, password, timing)".into(),
             nontrivial_set: "nontrivial",
             assumptions: vec!["greeting grammar from the protocol document: `OK MPD ` + >=1 non-LF bytes that are valid UTF-8 + LF".into(), "a stream that ends without LF after bytes that can no longer become a greeting may be reported as InvalidMessage or UnexpectedEof".into()],
             exhaustive: None,
